@@ -1,12 +1,14 @@
 //! vh-store: checks over the real record store / swarm driver / replication fetcher of
 //! ant-networking, stepped by the harness through the `verif-hooks` feature.
 mod c01;
+mod c02;
 mod sim;
 
 fn main() {
     let cfg = vh_core::RunCfg::from_args();
     match cfg.prop.as_str() {
         "C01" => c01::run(cfg),
+        "C02" => c02::run(cfg),
         other => {
             eprintln!("vh-store: unknown property {other}");
             std::process::exit(2);
